@@ -27,6 +27,8 @@ const THREADS: usize = 3;
 const WIDE_NAMES: usize = 48;
 const OPS_PER_THREAD: usize = 4;
 const PERTURB_US: u64 = 200;
+/// share of the soft wall-clock budget after which the native concurrent phase stops generating
+const NATIVE_BUDGET_SHARE: f64 = 0.55;
 /// executions of one program tried when shrinking / replaying a schedule-dependent violation
 const SHRINK_TRIES: usize = 200;
 const REPLAY_TRIES: usize = 30_000;
@@ -86,6 +88,9 @@ impl C15 {
         let maxlen = cli.tier.pick(5usize, 6usize);
         let per = cli.n(12_000, 400_000);
         let n = cli.threads;
+        // the children parse their own Cli: hand them the tier and what is left of the soft budget
+        std::env::set_var("VERIF_TIER", cli.tier.name());
+        std::env::set_var("VERIF_BUDGET_S", format!("{:.0}", (cli.budget_s - cli.start.elapsed().as_secs_f64()).max(1.0)));
         let results: Vec<Result<Json, String>> = std::thread::scope(|sc| {
             let hs: Vec<_> = (0..n)
                 .map(|i| {
@@ -297,7 +302,7 @@ impl C15 {
             let mut my_wits: HashSet<u64> = HashSet::new();
             let mut reported = 0usize;
             for _ in 0..per {
-                if cli2.expired() {
+                if cli2.start.elapsed().as_secs_f64() > cli2.budget_s * NATIVE_BUDGET_SHARE {
                     st.count("stopped_by_time_budget");
                     break;
                 }
@@ -395,18 +400,23 @@ impl C15 {
         match sanit::tsan_build(&root, 1200) {
             Err(e) => st.inconclusive(format!("tsan: {}", e)),
             Ok(dir) => {
-                let args: Vec<String> = vec![cli.seed.to_string(), cli.n(2_000, 40_000).to_string(), "100".into()];
-                let v = sanit::tsan_run(&dir.join("c15"), "C15", &args, 1200);
-                let a2 = args.clone();
-                if let Some(out) = sanit::fold(st, "C15", "tsan", v, |kind, report, line| {
-                    json!({"kind": "tsan", "bin": "c15", "args": a2, "report_kind": kind, "report": report, "workload_line": line})
-                }) {
-                    let sums = sanit::summary_lines(&out, "C15");
-                    if sums.is_empty() {
-                        st.inconclusive("tsan: the workload printed no summary");
+                let procs = 8u64;
+                let per = cli.n(250, 5_000);
+                let args_list: Vec<Vec<String>> =
+                    (0..procs).map(|k| vec![(cli.seed.wrapping_mul(1000) + k).to_string(), per.to_string(), "100".into()]).collect();
+                let mut all = String::new();
+                for (v, args) in sanit::tsan_run_many(&dir.join("c15"), "C15", &args_list, 1200).into_iter().zip(args_list.iter()) {
+                    let a2 = args.clone();
+                    if let Some(out) = sanit::fold(st, "C15", "tsan", v, |kind, report, line| {
+                        json!({"kind": "tsan", "bin": "c15", "args": a2, "report_kind": kind, "report": report, "workload_line": line})
+                    }) {
+                        if sanit::summary_lines(&out, "C15").is_empty() {
+                            st.inconclusive("tsan: a workload process printed no summary");
+                        }
+                        all.push_str(&out);
                     }
-                    fold_summaries(st, "tsan", &sums);
                 }
+                fold_summaries(st, "tsan", &sanit::summary_lines(&all, "C15"));
             }
         }
     }
@@ -492,7 +502,7 @@ impl Check for C15 {
         "C15"
     }
     fn rule(&self) -> String {
-        "sequential, EXHAUSTIVE: every sequence of length 1..=5 (quick) / 1..=6 (thorough) over the 25 mutating operations {add 4 names x 3 saliences, remove x4, enable x4, disable x4, clear}: return value and version checked after every operation, every read view (get_rule for all 4 names, get_rules, get_rule_names, rule_count, get_rules_by_salience+get_rule_by_index, get_statistics, version) compared with the ordered-list+version model after the last one; sequential, SAMPLED: random sequences of length 6..=8 (1 in 8: 9..=16) over 2-4 names with every view compared after every operation; plus 'wide' random sequences of 30..=90 operations over 48 names (beyond the stated 4-name bound; long lists with many equal saliences), views compared after the last operation. A sequential case is non-trivial when at least 2 rules were stored at some point and it contains an operation other than a first-time add (rejected duplicate, missing-name operation, removal, enable/disable, clear); distinct by operation sequence (length>=5 exhaustive cases are counted, not hashed). Concurrent, SAMPLED: random programs of 3 threads x 4 operations (all ten operation kinds, 2-3 names, 0-2 set-up adds) on one Arc<KnowledgeBase> under seeded yields/sleeps at the library's schedule points and before every call; each recorded history (client-side call/return stamps from one atomic clock) is checked for linearizability (WGL search memoised on (linearised set, model state), step cap => inconclusive). A concurrent history is non-trivial when operations of different threads overlapped in real time and a worker-thread operation changed the store; distinct by recorded history. Thorough adds the same generator under Miri many-seeds (64 scheduler seeds x 20 histories) and a ThreadSanitizer build (40000 histories).".into()
+        "sequential, EXHAUSTIVE: every sequence of length 1..=5 (quick) / 1..=6 (thorough) over the 25 mutating operations {add 4 names x 3 saliences, remove x4, enable x4, disable x4, clear}: return value and version checked after every operation, every read view (get_rule for all 4 names, get_rules, get_rule_names, rule_count, get_rules_by_salience+get_rule_by_index, get_statistics, version) compared with the ordered-list+version model after the last one; sequential, SAMPLED: random sequences of length 6..=8 (1 in 8: 9..=16) over 2-4 names with every view compared after every operation; plus 'wide' random sequences of 30..=90 operations over 48 names (beyond the stated 4-name bound; long lists with many equal saliences), views compared after the last operation. A sequential case is non-trivial when at least 2 rules were stored at some point and it contains an operation other than a first-time add (rejected duplicate, missing-name operation, removal, enable/disable, clear); distinct by operation sequence (length>=5 exhaustive cases are counted, not hashed). Concurrent, SAMPLED: random programs of 3 threads x 4 operations (all ten operation kinds, 2-3 names, 0-2 set-up adds) on one Arc<KnowledgeBase> under seeded yields/sleeps at the library's schedule points and before every call; each recorded history (client-side call/return stamps from one atomic clock) is checked for linearizability (WGL search memoised on (linearised set, model state), step cap => inconclusive). A concurrent history is non-trivial when operations of different threads overlapped in real time and a worker-thread operation changed the store; distinct by recorded history. Thorough adds the same generator under Miri many-seeds (64 scheduler seeds x 20 histories) and a ThreadSanitizer build (8 processes x 5000 histories).".into()
     }
     fn assumptions(&self) -> Vec<String> {
         vec![
